@@ -153,6 +153,26 @@ def check_vector(ctx, rng, st, flags):
             fitcheck.check_fit3d(ctx, tr, flags, flux, err, base, wit, keyp='ref3d')
         ctx.event('reference-oracle')
 
+    # (00) the same source read from a line of a data file (the documented route): the flags must mean the same as for the
+    #      source built in memory (repr() of a float reads back exactly, so the fits must be bit-identical)
+    try:
+        from sedfitter.source import Source
+        s_line = Source.from_ascii(gen.source_line('src', flags, flux, err))
+        rl_ = by_name(fitter.fit(s_line))
+        ctx.event('pair:source-read-from-data-line')
+        if not probe.same(np.asarray(s_line.valid), flags):
+            ctx.violation('data-line:flags-changed', 'reading the source from a data line changed its flags', dict(wit, read_flags=s_line.valid))
+        else:
+            for name, (a, s_, c, mf) in bn.items():
+                a2, s2, c2, mf2 = rl_[name]
+                if not (same_f(a, a2) and same_f(s_, s2) and same_f(c, c2)):
+                    ctx.violation('data-line:fit-differs', 'a source read from a data line is not fitted like the same source built in memory',
+                                  dict(wit, model=name, in_memory=(a, s_, c), from_line=(a2, s2, c2)))
+                    break
+    except Exception as exc:
+        if nontrivial:
+            ctx.violation('data-line:raised', 'reading / fitting the source from a data line raised: %r' % (exc,), wit)
+
     # (0) the flags mean the same on a source object that carried other flags before: a live Source already fitted with `flags`
     #     is re-flagged (one fitted point or one limit becomes unused / plot-only) and fitted again; the result must be
     #     bit-identical to that of a fresh Source with the new flags and the same values
@@ -373,7 +393,7 @@ def run(ctx):
                'limits carry positive finite fluxes (quantifier of C01)',
                '3-D mode: penalties are decided by the numeric reference of C02 (the penalty can move the best distance)')
     ctx.require_events('fit:base', 'pair:ignored-hostile', 'pair:band-removed', 'pair:limit-vs-flag0',
-                       'pair:confidence0-vs-flag0', 'pair:flag1-as-flag4', 'reference-oracle', 'pair:live-source-reflagged')
+                       'pair:confidence0-vs-flag0', 'pair:flag1-as-flag4', 'reference-oracle', 'pair:live-source-reflagged', 'pair:source-read-from-data-line')
     ctx.require_regimes('limit-violated:c=1', 'limit-violated:0<c<1', 'limit-satisfied', 'limit-penalised:3d', 'n=1', 'n=4')
     sets = [Setup(ctx, rng, '2d'), Setup(ctx, rng, '3d')]
     vs = vectors(ctx)
